@@ -70,14 +70,27 @@ theorem c20_discipline_holding_descriptor :
       opensDescriptor.contains (Gen.C20.funcNames.getD i "") || checkFrom Gen.C20.table fuel ((0, 0) :: entryOf i) i) = true :=
   discipline_holding_descriptor
 
+/-- **Guarded fields.** Starting from every exported function or method of mfs, every read or write of
+`Directory.entriesCache`, `Directory.unixfsDir`, `File.node`, `fileDescriptor.state`, `fileDescriptor.mod` (facts
+regenerated from the source) happens while the lock that guards that field of that same object is held — in write
+mode for a store — except the ten existing unguarded reads enumerated in `Gen.C20.allowUnguarded`. A function that
+drops its lock (or a new access outside it) makes this fail. -/
+theorem c20_guarded_access :
+    Gen.C20.exportedFuncs.all (fun i => checkFrom Gen.C20.tableAcc fuel (entryOf i) i) = true := guarded_access
+
+/-- the rule is not vacuous: an access without the lock is rejected, with it accepted -/
+example : checkFrom ⟨[[.access 0 (some []) false]], [.file], [some (3, .file)], [], [], [], true, []⟩ fuel [] 0 = false := by decide +kernel
+example : checkFrom ⟨[[.acq 0 (some []) false, .access 0 (some []) true, .rel 0 (some []) false]], [.file], [some (3, .file)], [], [], [], true, []⟩ fuel [] 0 = false := by decide +kernel
+example : checkFrom ⟨[[.acq 0 (some []) true, .access 0 (some []) true, .rel 0 (some []) true]], [.file], [some (3, .file)], [], [], [], true, []⟩ fuel [] 0 = true := by decide +kernel
+
 /-- The checker is not vacuous: it rejects the facts of the unrepaired `File.Mode` … -/
 theorem c20_checker_rejects_reentrant_rlock : checkFrom buggyTable fuel [] 0 = false := by decide +kernel
 /-- … accepts its callee alone, and rejects an inverted order (node lock, then a directory lock). -/
 example : checkFrom buggyTable fuel [] 1 = true := by decide +kernel
 example : checkFrom ⟨[[.acq 0 (some []) true, .acq 1 (some [.up]) true, .rel 1 (some [.up]) true, .rel 0 (some []) true]],
-    [.file], [some (3, .file), some (2, .dir)], [], [], []⟩ fuel [] 0 = false := by decide +kernel
+    [.file], [some (3, .file), some (2, .dir)], [], [], [], false, []⟩ fuel [] 0 = false := by decide +kernel
 example : checkFrom ⟨[[.acq 1 (some [.up]) true, .acq 0 (some []) true, .rel 0 (some []) true, .rel 1 (some [.up]) true]],
-    [.file], [some (3, .file), some (2, .dir)], [], [], []⟩ fuel [] 0 = true := by decide +kernel
+    [.file], [some (3, .file), some (2, .dir)], [], [], [], false, []⟩ fuel [] 0 = true := by decide +kernel
 
 /-! ## 3. acknowledged writes: step model of flushUp / updateChildEntry -/
 
